@@ -1498,6 +1498,48 @@ pub fn handle_trailer(
     Ok(())
 }
 
+/// verification hook (`--cfg sozu_verif`): thin public wrappers that *call* the private
+/// validation kernels above so out-of-tree solver harnesses can reach them. No logic here.
+#[cfg(sozu_verif)]
+pub mod verif {
+    use kawa::BodySize;
+
+    /// 0 = accepted, otherwise 1 + discriminant order of the reject reason
+    pub fn classify_invalid_h2_header(name: &[u8], value: &[u8]) -> Option<u8> {
+        super::classify_invalid_h2_header(name, value).map(|r| r as u8)
+    }
+    pub fn is_tchar(b: u8) -> bool {
+        super::is_tchar(b)
+    }
+    pub fn has_invalid_name_byte(name: &[u8]) -> bool {
+        super::has_invalid_name_byte(name)
+    }
+    pub fn is_connection_specific_header(name: &[u8]) -> bool {
+        super::is_connection_specific_header(name)
+    }
+    pub fn is_invalid_te_value(value: &[u8]) -> bool {
+        super::is_invalid_te_value(value)
+    }
+    pub fn has_invalid_pseudo_value_byte(value: &[u8]) -> bool {
+        super::has_invalid_pseudo_value_byte(value)
+    }
+    pub fn strip_port(value: &[u8]) -> &[u8] {
+        super::strip_port(value)
+    }
+    pub fn host_matches_authority(host: &[u8], authority: &[u8]) -> bool {
+        super::host_matches_authority(host, authority)
+    }
+    pub fn trim_ows(input: &[u8]) -> &[u8] {
+        super::trim_ows(input)
+    }
+    pub fn set_content_length(body_size: &mut BodySize, length: usize) -> bool {
+        super::set_content_length(body_size, length)
+    }
+    pub fn parse_rfc9218_priority(value: &[u8]) -> (u8, bool) {
+        super::parse_rfc9218_priority(value)
+    }
+}
+
 #[cfg(test)]
 mod tests {
     use super::*;
